@@ -11,7 +11,20 @@ fail() { echo "build.sh: $*" >&2; exit 2; }
 [ -x "$VBUILD/instr" ] && [ -f "$VBUILD/overlay/overlay.json" ] || fail "run ./setup.sh first"
 rm -rf "$S" && mkdir -p "$S/repo" "$S/sim" || fail "mkdir"
 rsync -a --exclude .git --exclude examples --exclude docs --exclude '/test' --exclude '*_test.go' --exclude '*.md' "$REPO"/ "$S/repo/" || fail "copy"
-mkdir -p "$S/repo/utils/simrt" && cp "$VERIF"/simrt/*.go "$S/repo/utils/simrt/" || fail "simrt"
+# the scheduler runtime is a module of its own (verif.local/simrt), shared by the instrumented
+# engine, the harness and - in dependency-dense builds - the instrumented copy of expr-lang
+mkdir -p "$S/simrt" && cp "$VERIF"/simrt/*.go "$S/simrt/" && printf 'module verif.local/simrt\n\ngo 1.18\n' > "$S/simrt/go.mod" || fail "simrt"
+printf '\nrequire verif.local/simrt v0.0.0\n\nreplace verif.local/simrt => ../simrt\n' >> "$S/repo/go.mod" || fail "repo go.mod"
+DEPS=${3:-}
+if [ -n "$DEPS" ]; then
+  # dependency-dense build: statement-level yields inside expr-lang's VM, so that two goroutines
+  # evaluating through shared evaluator state interleave inside an evaluation
+  EXPRDIR=$(cd "$S/repo" && $GO list -m -f '{{.Dir}}' github.com/expr-lang/expr) || fail "locate expr-lang"
+  cp -r "$EXPRDIR" "$S/exprlang" && chmod -R u+w "$S/exprlang" || fail "copy expr-lang"
+  printf '\nrequire verif.local/simrt v0.0.0\n\nreplace verif.local/simrt => ../simrt\n' >> "$S/exprlang/go.mod"
+  printf '\nreplace github.com/expr-lang/expr => ../exprlang\n' >> "$S/repo/go.mod"
+  "$VBUILD/instr" -only '^vm/vm\.go$' -dense '^vm/vm\.go$' "$S/exprlang" > "$S/instr-deps.log" 2>&1 || { cat "$S/instr-deps.log" >&2; fail "instrumentation of expr-lang"; }
+fi
 if [ -n "$DENSE" ]; then
   "$VBUILD/instr" -dense "$DENSE" "$S/repo" > "$S/instr.log" 2>&1 || { cat "$S/instr.log" >&2; fail "instrumentation"; }
 else
@@ -29,7 +42,12 @@ require (
 )
 
 replace github.com/rulego/streamsql => ../repo
+
+require verif.local/simrt v0.0.0
+
+replace verif.local/simrt => ../simrt
 E2
+if [ -n "$DEPS" ]; then printf '\nreplace github.com/expr-lang/expr => ../exprlang\n' >> "$S/sim/go.mod"; fi
 cp "$REPO/go.sum" "$S/sim/go.sum" 2>/dev/null || true
 (cd "$S/sim" && $GO test -overlay "$VBUILD/overlay/overlay.json" -c -o "$S/sim.test" . ) > "$S/build.log" 2>&1 || { cat "$S/build.log" >&2; fail "go test -c"; }
 tail -1 "$S/instr.log"
